@@ -9,8 +9,8 @@ from props import _spec
 
 ID = 'C10'
 LEAN_MODULES = ['Proofs.C10']
-REQUIRED = ['C10.digitize_spec', 'C10.exactly_one_bin', 'C10.hht_dense_eq_spec', 'C10.hht_sparse_in_shape',
-            'C10.hht_sparse_eq_dense', 'C10.hht1d_eq_spec', 'C10.hht_marginal', 'C10.hht_total',
+REQUIRED = ['C10.digitize_spec', 'C10.digitize_out_of_range', 'C10.exactly_one_bin', 'C10.hht_dense_eq_spec',
+            'C10.hht_sparse_in_shape', 'C10.hht_sparse_one_per_sample', 'C10.hht_sparse_eq_dense', 'C10.hht1d_eq_spec', 'C10.hht_marginal', 'C10.hht_total',
             'C10.energy_is_square', 'C10.hht_below_range_pinned']
 TRUSTED = ['np.digitize / scipy.sparse.coo_matrix(...).toarray() are modelled by what they do to indices (count of edges <= v; '
            'scatter-add with accumulating duplicates); the digitize model is compared with the real np.digitize on every run (stream digitize)',
@@ -18,7 +18,7 @@ TRUSTED = ['np.digitize / scipy.sparse.coo_matrix(...).toarray() are modelled by
            'and handed to the model as exact rationals',
            'exactness: amplitudes are small integers / short dyadics, so every float sum is exact and compared with ==']
 ASSUMPTIONS = ['edges_weakly_increasing: the theorems assume the edge vector is non-decreasing; validated on every edge vector produced '
-               'by define_hist_bins / define_hist_bins_from_data in the run (instance kind bins:not-increasing)',
+               'by define_hist_bins / define_hist_bins_from_data in the run (instance kinds assumption:edges-not-increasing, bins:not-increasing)',
                'amplitudes are finite (NaN amplitudes are skipped by hilberthuang_1d but propagate in hilberthuang; outside the property)']
 RULE = ('exhaustive: every assignment of the edge-hitting alphabet {below, negative, each edge exactly, each bin interior, above, NaN} '
         'to k = T*M samples (k <= 3 quick, <= 4 thorough; amplitudes 1,2,4,8 so every subset sum is distinct) x linear and log edge sets '
